@@ -370,3 +370,146 @@ def rule_rebuild_completeness(ctx, R: str, modules=None):
                   f'({", ".join(fl.name + "=" + ast.unparse(fl.default) for fl in ci.fields if fl.name in missing)})')
   if n_sites < 2:
     raise index.AnalysisError(f'{R}: only {n_sites} rebuild sites found')
+
+
+# --------------------------------------------------- single traversal of Iterables
+TRAVERSING_BUILTINS = {'list', 'tuple', 'set', 'sorted', 'iter', 'next', 'enumerate', 'zip', 'sum', 'min', 'max', 'any', 'all', 'frozenset', 'reversed', 'map', 'filter', 'dict'}
+
+
+def _iterable_vars(f: index.FuncInfo):
+  """{name: how it is bound} for variables that hold a user-supplied Iterable."""
+  out = {}
+  for p in f.params:
+    name = p.lstrip('*')
+    ann = f.param_annotation(name)
+    if ann is None:
+      continue
+    t = ast.unparse(ann).replace('Optional[', '').replace('typing.', '')
+    if t.startswith('Iterable['):
+      out[name] = 'param'
+    elif 'Iterable[' in t and t.startswith(('dict[', 'Dict[', 'Mapping[')):
+      out[name] = 'dict-of-iterables'
+  # values of dict-of-iterables bound by `for k, v in p.items()`
+  for n in common.walk_no_nested(f.node):
+    if isinstance(n, ast.For) and isinstance(n.iter, ast.Call) and isinstance(n.iter.func, ast.Attribute) and n.iter.func.attr in ('items', 'values'):
+      base = n.iter.func.value
+      if isinstance(base, ast.Name) and out.get(base.id) == 'dict-of-iterables':
+        tgt = n.target
+        if n.iter.func.attr == 'items' and isinstance(tgt, ast.Tuple) and isinstance(tgt.elts[1], ast.Name):
+          out[tgt.elts[1].id] = 'loop-value'
+        elif n.iter.func.attr == 'values' and isinstance(tgt, ast.Name):
+          out[tgt.id] = 'loop-value'
+  return {k: v for k, v in out.items() if v != 'dict-of-iterables'}
+
+
+def traversal_summaries(ctx) -> dict[str, set[str]]:
+  """fq -> set of parameter names the function (transitively) traverses."""
+  def build():
+    cg = callgraph.get(ctx)
+    summ: dict[str, set[str]] = {f.fq: set() for f in ctx.repo.all_functions()}
+    for _ in range(6):
+      changed = False
+      for f in ctx.repo.all_functions():
+        params = {p.lstrip('*') for p in f.params}
+        for name in params:
+          if name in summ[f.fq]:
+            continue
+          if _traversal_sites(ctx, f, name, summ, cg):
+            summ[f.fq].add(name)
+            changed = True
+      if not changed:
+        break
+    return summ
+  return ctx.cached('traversal_summaries', build)
+
+
+def _traversal_sites(ctx, f, var, summ, cg):
+  """AST nodes of f at which `var` is (partially) traversed."""
+  sites = []
+  site_map = {id(s.node): s for s in cg.sites.get(f.fq, [])}
+  for n in common.walk_no_nested(f.node):
+    if isinstance(n, (ast.For, ast.comprehension)) and isinstance(n.iter, ast.Name) and n.iter.id == var:
+      sites.append(n)
+    elif isinstance(n, ast.Call):
+      nm = common.call_name(n)
+      if nm in TRAVERSING_BUILTINS and any(isinstance(a, ast.Name) and a.id == var for a in n.args):
+        # next(iter(x)) counts once (the inner iter call is the site)
+        if nm == 'next' and n.args and isinstance(n.args[0], ast.Call):
+          continue
+        sites.append(n)
+      s = site_map.get(id(n))
+      if s is not None and s.callees:
+        for callee in s.callees:
+          pos = callee.pos_params
+          off = 1 if (callee.cls is not None and callee.is_method and (s.receiver_self or s.kind in ('resolved-by-name', 'constructor'))) else 0
+          for i, a in enumerate(n.args):
+            if isinstance(a, ast.Name) and a.id == var and i + off < len(pos) and pos[i + off] in summ.get(callee.fq, set()):
+              sites.append(n)
+          for k in n.keywords:
+            if isinstance(k.value, ast.Name) and k.value.id == var and k.arg in summ.get(callee.fq, set()):
+              sites.append(n)
+  return sites
+
+
+def rule_single_traversal(ctx, R: str, root_fqs: list[str]):
+  """A user-supplied Iterable (possibly a one-shot generator) is traversed at
+  most once on every path: peeking at it, or looping twice, silently drops or
+  loses samples."""
+  ctx.rule(R, 'user-supplied Iterables (datasets) are traversed at most once on every path', floor=1)
+  cg = callgraph.get(ctx)
+  summ = traversal_summaries(ctx)
+  chains = cg.reachable(root_fqs)
+  n_vars = 0
+  for fq in sorted(chains):
+    f = ctx.repo.func(fq)
+    ivars = _iterable_vars(f)
+    if not ivars:
+      continue
+    g = cfgmod.build(f.node)
+    for var, how in ivars.items():
+      sites = _traversal_sites(ctx, f, var, summ, cg)
+      n_vars += 1
+      ctx.instance(R)
+      if not sites:
+        ctx.check(R, True, f.node, f, var, '')
+        continue
+      # CFG nodes of the sites
+      def node_of(site):
+        if isinstance(site, ast.For):
+          return g.node_of(site)
+        st = common.stmt_of(f.node, site) if not isinstance(site, ast.comprehension) else None
+        if st is None:
+          for cand in ast.walk(f.node):
+            if isinstance(cand, ast.stmt) and any(x is site for x in ast.walk(cand)):
+              st = cand
+        # compound statement heads: the expression sits in the head node
+        nd = g.node_of(st) if st is not None else None
+        return nd
+      nodes = [(s, node_of(s)) for s in sites]
+      nodes = [(s, n) for s, n in nodes if n is not None]
+      rebind = {n.id for n in g.nodes if n.kind == 'for' and var in defuse.names_in(n.ast.target)}
+      rebind |= {n.id for n in g.nodes if n.kind == 'stmt' and isinstance(n.ast, ast.Assign) and any(var in defuse.names_in(t) for t in n.ast.targets)}
+      tset = {n.id for _, n in nodes}
+      bad = None
+      for s, n in nodes:
+        if n.kind == 'for' and isinstance(s, ast.For):
+          starts = [d for d, lab in g.succ[n.id] if lab in ('exit', 'break')]
+          inner = g.reachable([d for d, lab in g.succ[n.id] if lab == 'loop'], blocked={n.id} | rebind)
+          if inner & (tset - {n.id}):
+            bad = (s, 'is traversed again inside the loop over it')
+          after = g.reachable(starts, blocked=rebind)
+        else:
+          after = g.reachable([d for d, _ in g.succ[n.id]], blocked=rebind)
+          # two sites in one statement
+          same = [x for x, m in nodes if m.id == n.id]
+          if len(same) > 1:
+            bad = (s, 'is traversed twice in one statement')
+        hit = after & tset
+        if hit:
+          other = next(x for x, m in nodes if m.id in hit)
+          bad = (s, f'is traversed at line {getattr(s, "lineno", "?")} and again at line {getattr(other, "lineno", "?")}')
+      ctx.check(R, bad is None, (bad[0] if bad else f.node), f, f'{var} in {f.name}',
+                f'`{var}` is a user-supplied Iterable (may be a one-shot generator) and {bad[1] if bad else ""}: '
+                'the first traversal consumes samples the second one never sees')
+  if n_vars < 1:
+    raise index.AnalysisError(f'{R}: no Iterable-typed variable found in the call tree')
